@@ -6,7 +6,7 @@
    about the real code only up to that length. *)
 From Coq Require Import List Arith NArith Bool Lia.
 Import ListNotations.
-Require Import S1 VParse VComplete VTop VTop2 VDec Py VMeaning VCanon VCanon2 VCanon3 VCmp SpecModel SpecOps Order Canon VWf VKeyEq CanonLaws VInt VGnfParsed VObsModel VReading VNumDefined.
+Require Import S1 VParse VComplete VTop VTop2 VDec Py VMeaning VCanon VCanon2 VCanon3 VCmp SpecModel SpecOps Order Canon VWf VKeyEq CanonLaws VInt VGnfParsed VObsModel VReading VNumDefined VPreOrder.
 Open Scope N_scope.
 
 (* 1. an accepted string is read as the spelling it is: the scanner returns a parse tree whose rendering is the input,
@@ -219,6 +219,22 @@ Proof.
   intros Ha Hb. rewrite (C02_canon_nostrip_is_str a x Ha), (C02_canon_nostrip_is_str b y Hb). exact (C02_str_injective a b x y Ha Hb).
 Qed.
 Print Assumptions C02_canon_nostrip_exact.
+
+(* 13. is_prerelease is an order fact, not only a reading of the text: v is a pre-release exactly when it sorts strictly below the version
+       obtained by dropping its pre-release and dev segments (post-release number and local label kept), and it IS that version otherwise -
+       so 1.0.post1.dev2 is a pre-release (it sorts below 1.0.post1) although its sort key carries no pre-release marker *)
+Theorem C02_prerelease_is_below_its_final v : pep440_cmp v (final_of v) = if is_prerelease v then Lt else Eq.
+Proof. exact (prerelease_below_final v). Qed.
+Print Assumptions C02_prerelease_is_below_its_final.
+Theorem C02_prerelease_is_below_its_final_text s v : Version s = Some v ->
+  Version (vstr (final_of v)) = Some (final_of v) /\ (is_prerelease v = true <-> pep440_cmp v (final_of v) = Lt).
+Proof.
+  intros E. pose proof (Version_wf s v E) as (A & B & C & D & F). split.
+  - apply Version_vstr. unfold VMeaning.wf_version, final_of; cbn [release pre post dev local]. split; [exact A|]. split; [exact I|].
+    split; [exact C|]. split; [exact I | exact F].
+  - rewrite (prerelease_below_final v). destruct (is_prerelease v); split; congruence.
+Qed.
+Print Assumptions C02_prerelease_is_below_its_final_text.
 
 (* non-vacuity: " V1!02.0-PREVIEW_3.r.dev+Ab-01\n" is accepted and read as 1!2.0rc3.post0.dev0+ab.1 *)
 Example C02_nonvacuous :
